@@ -2,12 +2,12 @@
 import plistlib
 from .. import vlib
 from ..vlib import cN, clist
-from ..translate import tr_kevent, tr_oslog
+from ..translate import tr_kevent, tr_oslog, tr_container
 from ..harness import dumps as D
 from . import container_common as cc
 from . import C16 as c16
 
-TRANSLATORS = [tr_kevent.translate, tr_oslog.translate]
+TRANSLATORS = [tr_kevent.translate, tr_oslog.translate, tr_container.translate]
 MODEL_TARGETS = ['theories/ContainerCases.vo', 'theories/MetaCases.vo']
 PROOF_TARGETS = ['props/C03.vo']
 PROP_FILE = 'props/C03.v'
